@@ -113,6 +113,56 @@ def handleLoad (line : String) : String :=
     | _ => "bad"
   | _ => "bad"
 
+/-- `load2 SPEC FILEA FILEB => resA;resB | D<image>`: two files loaded into the same machine one after the other
+    (short files: the copy is evaluated directly) -/
+def handleLoad2 (line : String) : String :=
+  match line.splitOn " | " with
+  | [main, img] =>
+    match main.splitOn " => " with
+    | [req, res] =>
+      match words req with
+      | [_, spec, fa, fb] =>
+        match docMachine spec, unhex fa, unhex fb with
+        | some k, some ba, some bb =>
+          let files : List (List Byte) := [ba.map (BitVec.ofNat 8), bb.map (BitVec.ofNat 8)]
+          let s0 := initState k
+          -- the Impl model
+          let (sI, tI, rI) := files.foldl (fun (acc : MemState × List Cell × List String) file =>
+            let (s, t, rs) := acc
+            match file with
+            | lo :: hi :: b :: rest =>
+              let la : Addr := hi.zeroExtend 16 * 256 + lo.zeroExtend 16
+              let (ok, s', t') := copyTracked k s la (b :: rest) t
+              (s', t', rs ++ [if Generated.loadChecksCopyError && !ok then "err" else s!"ok_{la.toNat}_{(b :: rest).length % 65536}"])
+            | _ => (s, t, rs ++ ["err"])) (s0, [], [])
+          let modelRes := ";".intercalate rI
+          let modelImg := imageOfState k sI tI
+          -- the specification: every file is placed by the same rule on the memory as it is at that moment
+          let (sS, tS, rS, known) := files.foldl (fun (acc : MemState × List Cell × List String × Bool) file =>
+            let (s, t, rs, known) := acc
+            match file with
+            | lo :: hi :: b :: rest =>
+              (match specCopy k s (hi.toNat * 256 + lo.toNat) (b :: rest) t with
+               | some (s', t') => (s', t', rs ++ [s!"ok_{hi.toNat * 256 + lo.toNat}_{(b :: rest).length}"], known)
+               | none => (s, t, rs ++ ["err"], false))
+            | _ => (s, t, rs ++ ["err"], known)) (s0, [], [], true)
+          let specRes := ";".intercalate rS
+          -- after a failed load the contents are not constrained; results are compared up to and including the first error
+          let upToErr (l : List String) : List String := match l.findIdx? (· == "err") with | some i => l.take (i + 1) | none => l
+          let goRes := upToErr (res.trimAscii.toString.splitOn ";")
+          let d := (if modelRes != res.trimAscii.toString then [s!"result:model={modelRes}"] else []) ++
+                   (if modelImg != img.trimAscii.toString then ["image"] else [])
+          let v := (if (res.splitOn "hostcrash").length > 1 then ["C13:hostcrash"]
+                    else if upToErr rS != goRes then [s!"C13:result2:spec={specRes}:go={res.trimAscii.toString}"] else []) ++
+                   (if known && imageOfState k sS tS != img.trimAscii.toString then ["C13:image-second-load"] else [])
+          let ds := if d.isEmpty then "agree" else "DIFF " ++ ",".intercalate d
+          let vs := if v.isEmpty then "specok" else "VIOL " ++ ",".intercalate (v.map (· ++ s!"@{spec}"))
+          s!"{ds} | {vs} | load2"
+        | _, _, _ => "bad"
+      | _ => "bad"
+    | _ => "bad"
+  | _ => "bad"
+
 def handlePreload (line : String) : String :=
   match line.splitOn " | " with
   | [main, img] =>
